@@ -197,9 +197,10 @@ new7 = '''## 7. Trusting the monitors: seeded changes
 |---|---|---|---|---|---|---|---|
 %s
 
-   Three further changes (C17-G, C03-K, C04-F) were caught when they were seeded but are retired (`seeded_retired/`,
-   with the reasons): two now fail regression tests that later repairs of the engine brought with them, and the
-   third no longer changes the behaviour since the global window evaluates expression items per row.
+   Eleven further changes (C17-G, C03-K, C04-F, C03-G, C03-H, C04-L, C07-H, C03-D, C03-I, C07-C, C17-E) were caught
+   when they were seeded but are retired (`seeded_retired/`, with the reasons): six now fail regression tests that
+   later repairs of the engine brought with them, and five no longer change the behaviour because the code they
+   edit was reshaped by a repair.
 
 3. If a realistic break leaves no trace in what is recorded, observability is added (another witness column,
    another hook) rather than cleverer inference: examples are `Observe("expand.swap")` for the exact capacity,
